@@ -50,6 +50,14 @@ class C17(Check):
                 scn["event"] = {"k": "print", "at": [[rng.choice(keys), rng.randrange(1 << 30)] for _ in range(rng.randint(1, 3))]}
                 if rng.random() < 0.3:
                     scn["event"]["falsy"] = rng.choice(["", "0", "false", "''", "0.0", "1 - 1", "!true"])
+                elif rng.random() < 0.3:
+                    # two directives in two different files that print the SAME text, most likely from the same line number: two
+                    # directives, two deliveries
+                    referenced = {r0 for k0 in uni.defs for r0 in T.def_refs(uni.defs[k0])}
+                    free = [k0 for k0 in keys if k0 not in referenced]
+                    if len(free) >= 2:
+                        k1, k2 = rng.sample(free, 2)
+                        scn["event"] = {"k": "print", "at": [[k1, 1], [k2, 1]], "same_text": True}
             if self.apply_event(scn)[1]:
                 break
         if rng.random() < 0.3:
@@ -74,6 +82,9 @@ class C17(Check):
                 f.pop("crlf", None)
                 f["cr"] = True  # classic Mac line endings
             scn["fmt"][k] = f
+        if scn["event"] and scn["event"].get("same_text"):
+            for k0, _s in scn["event"]["at"]:
+                scn["fmt"][k0] = {}
         return scn
 
     def _apply_event(self, scn: dict):
@@ -163,6 +174,9 @@ class C17(Check):
                 items = d["secs"][si]["items"]
                 idx = rr.randint(0, len(items))
                 payload = "PAYLOAD_%d_%d" % (n, seed % 1000)
+                if ev.get("same_text"):
+                    payload, si, idx = "PAYLOAD_same_text", 0, 0
+                    items = d["secs"][0]["items"]
                 falsy = ev.get("falsy") if n == 0 else None
                 if falsy is not None:
                     # a directive whose value is "nothing much" (no expression, zero, false, an empty string): still one delivery
@@ -312,6 +326,8 @@ class C17(Check):
                         ev_count[k2] = ev_count.get(k2, 0) + 1
                 for key, tag, payload, _kl in sites:
                     got = [(pp, ln, tx) for (pp, ln, tx) in res["prints"] if (payload in tx if payload is not None else "PAYLOAD" not in tx)]
+                    if scn["event"].get("same_text"):
+                        got = [g for g in got if w.rel(g[0]) == uni.file_of(key)]  # (nothing refers to these files: the path is theirs)
                     want_file = uni.file_of(key)
                     want_line = w.lmaps[key].get(tag)
                     how = "target" if key in targets else "dependency" if key in closure else "outside"
